@@ -232,6 +232,13 @@ func (x *fnCtx) evalSpec(env *specEnv, e *SExpr) *Val {
 			}
 		}
 		base := x.evalSpec(env, e.Args[0])
+		if base.Tup != nil {
+			i, err := strconv.Atoi(e.Op)
+			if err != nil || i < 0 || i >= len(base.Tup) {
+				x.fail("spec: bad tuple projection .%s", e.Op)
+			}
+			return base.Tup[i]
+		}
 		return x.specField(env, base, e.Op)
 	case "index":
 		base := x.evalSpec(env, e.Args[0])
@@ -515,7 +522,7 @@ func (x *fnCtx) evalSpecCall(env *specEnv, e *SExpr) *Val {
 		}
 		srt := SInt
 		var vt types.Type = tInt
-		if strings.HasSuffix(name, "ss") {
+		if name == "foralls" || name == "existss" {
 			srt = SStr
 			vt = tString
 		}
@@ -567,6 +574,16 @@ func (x *fnCtx) evalSpecCall(env *specEnv, e *SExpr) *Val {
 		return scalar(tBool, SHasPrefix(ev(0).L[0], ev(1).L[0]))
 	case "hassuffix":
 		return scalar(tBool, SHasSuffix(ev(0).L[0], ev(1).L[0]))
+	case "elems":
+		// elems(s): the whole backing array (index -> element) of slice s in the current heap
+		a := ev(0)
+		el := a.T.Underlying().(*types.Slice).Elem()
+		l := layout(el)[0]
+		return scalar(tInt, Select(hget(env.heap, elemHeapName(el)+l.Suffix, ArrSort(SInt, ArrSort(SInt, l.Sort))), a.Arr()))
+	case "bytesAt":
+		// bytesAt(r): backing byte array with reference r
+		a := ev(0)
+		return scalar(tInt, Select(hget(env.heap, "E:uint8", ArrSort(SInt, ArrSort(SInt, SInt))), a.L[0]))
 	case "pathdir":
 		return scalar(tString, App("fn.path/filepath.Dir", SStr, ev(0).L[0]))
 	case "sbyte":
